@@ -21,7 +21,7 @@ TECH = {
     "C09": "panic-site inventory on the encode call graph (intervals, dominance; partitioned abstract interpretation for the interior of put), bit provenance of header/CRC bytes",
     "C10": "guard inventory with interval-exact accepted ranges, term templates for mask bits, sort dominance, sibling identity over 49 MSM instances",
     "C11": "round-half-away template matching on extracted field models + exact rational bound",
-    "C12": "typestate (clean/dirty buffer) via must-pass-through and dominance on build_message; interval of wiped range",
+    "C12": "abstract interpretation of build_message (buffer as a byte map, wipe interpreted, forks on the unknown flag / variant / call outcomes) against the buffer-reuse specification; typestate (clean/dirty buffer) via must-pass-through and dominance as cross-check",
     "C13": "dependence analysis (data + control) of the Ok value on the slice length and on bytes beyond L+6",
     "C14": "exhaustive table extraction from SwitchInt terminators, ADT discriminants and Cargo features",
     "C15": "count-field adequacy from types, static maximum layout sums, guard-before-push dominance",
